@@ -279,8 +279,10 @@ func c09History(c *Ctx, cs Case, prop string) {
 	for i, op := range ops {
 		f := strings.Split(op, ",")
 		before := abs
+		beforeLists := curLists
 		var class string
 		var answer string
+		var otherTypeAnswer, otherType string // Exists asked once more with a certtype that is not the list's type
 		var handed *signature.SignatureList // the list this operation hands to the database
 		var otherForm *signature.SignatureDatabase
 		var otherClass string
@@ -321,6 +323,14 @@ func c09History(c *Ctx, cs Case, prop string) {
 					sl.AppendBytes(guidFromWire(e[0]), e[1])
 				}
 				answer = fmt.Sprint(db.Exists(guidFromWire(unhx(f[1])), sl))
+				// the same list asked for under another certtype argument (chosen by position): a second query on the same objects
+				for k, cands := 0, [][]byte{tX509, tSHA256, tEXT, tSHA1}; k < len(cands); k++ {
+					if ot := cands[(k+i)%len(cands)]; hx(ot) != f[1] {
+						otherType = hx(ot)
+						otherTypeAnswer = fmt.Sprint(db.Exists(guidFromWire(ot), sl))
+						break
+					}
+				}
 			case "L":
 				sl := signature.NewSignatureList(guidFromWire(unhx(f[1])))
 				for _, e := range splitSigs(f[3]) {
@@ -512,6 +522,11 @@ func c09History(c *Ctx, cs Case, prop string) {
 					}
 				} else if class != "ok" || !insertedOne(before, abs, x) {
 					fail(i, "a valid append must add exactly this one entry and keep the others in order", class+" "+absStr(abs), "ok "+absStr(before)+" + "+absStr([]triple{x}), "")
+				} else if why := appendTouchedOneList(beforeLists, lists, x); why != "" {
+					// ... and "every list's size fields satisfy the equations": the entry goes to the end of ONE list whose
+					// type and SignatureSize are the entry's, or into a new list behind all others; every other list - also
+					// one without entries, which shows in no entry collection - keeps the fields it had
+					fail(i, "a valid append must add the entry at the end of a list of its type and signature size, or as a new list behind all others, and leave every other list (also a list without entries) as it was: "+why, listsStrShort(lists), listsStrShort(beforeLists)+" + "+absStr([]triple{x}), "")
 				}
 				if otherForm != nil && (otherClass != class || !bytes.Equal(otherForm.Bytes(), enc)) {
 					// the encodings differ: compare the entry collections (a different split into lists alone is not held against it)
@@ -548,6 +563,19 @@ func c09History(c *Ctx, cs Case, prop string) {
 				}
 				if answer != fmt.Sprint(all) {
 					fail(i, "Exists disagrees with the entry collection", answer, fmt.Sprint(all), "")
+				}
+				if otherTypeAnswer != "" {
+					// with a certtype argument that differs from the list's own type the entries asked for are those of the
+					// list's type or those of the certtype - the statement does not say which; any other answer is wrong
+					allOther := true
+					for _, e := range splitSigs(f[2]) {
+						if !containsTriple(before, triple{otherType, hx(e[0]), hx(e[1])}) {
+							allOther = false
+						}
+					}
+					if otherTypeAnswer != fmt.Sprint(all) && otherTypeAnswer != fmt.Sprint(allOther) {
+						fail(i, "Exists with certtype "+otherType[:8]+".. for a list of another type agrees with the entry collection under neither type", otherTypeAnswer, fmt.Sprintf("%v (entries of the list's type) or %v (of the certtype)", all, allOther), "")
+					}
 				}
 			case "L", "LH", "DH":
 				exp := append([]triple{}, before...)
@@ -1092,6 +1120,246 @@ func genEmptyListHistory(c *Ctx, u *c09Universe, i int, maxLen int) Case {
 	return Case{"op": "history", "pem": h["pem"], "start": start, "ops": ops}
 }
 
+func sameSpecList(a, b specList) bool {
+	if a.typ != b.typ || a.listSize != b.listSize || a.hdrSize != b.hdrSize || a.size != b.size || a.hdr != b.hdr || len(a.sigs) != len(b.sigs) {
+		return false
+	}
+	for i := range a.sigs {
+		if a.sigs[i] != b.sigs[i] {
+			return false
+		}
+	}
+	return true
+}
+
+func listsStrShort(ls []specList) string {
+	xs := []string{}
+	for _, l := range ls {
+		es := []string{}
+		for _, sg := range l.sigs {
+			es = append(es, sg[0][:4]+"..:"+shortHex(sg[1]))
+		}
+		xs = append(xs, fmt.Sprintf("{%s.. ListSize=%s HeaderSize=%s SignatureSize=%s [%s]}", l.typ[:4], l.listSize, l.hdrSize, l.size, strings.Join(es, " ")))
+	}
+	return "[" + strings.Join(xs, " ") + "]"
+}
+
+// appendTouchedOneList: is `after` the list sequence `before` with entry x (stored form) added at the end of exactly one
+// list of x's type and signature size, or with one new header-less list holding just x behind all others? "" if so.
+func appendTouchedOneList(before, after []specList, x triple) string {
+	size := fmt.Sprint(len(x.d)/2 + 16)
+	if x.d == "-" {
+		size = "16"
+	}
+	entry := [2]string{x.o, x.d}
+	switch len(after) {
+	case len(before) + 1:
+		for j := range before {
+			if !sameSpecList(before[j], after[j]) {
+				return fmt.Sprintf("a new list was added and list %d changed as well", j)
+			}
+		}
+		n := after[len(after)-1]
+		if n.typ != x.t || n.size != size || n.hdrSize != "0" || len(n.sigs) != 1 || n.sigs[0] != entry {
+			return "the list added at the end is not a header-less list of the entry's type and size holding just the entry"
+		}
+		return ""
+	case len(before):
+		changed := -1
+		for j := range before {
+			if !sameSpecList(before[j], after[j]) {
+				if changed >= 0 {
+					return fmt.Sprintf("lists %d and %d both changed", changed, j)
+				}
+				changed = j
+			}
+		}
+		if changed < 0 {
+			return "no list changed"
+		}
+		b, a := before[changed], after[changed]
+		if b.typ != x.t || b.size != size {
+			return fmt.Sprintf("the entry (signature size %s) went into list %d, which had SignatureSize %s", size, changed, b.size)
+		}
+		if a.typ != b.typ || a.size != b.size || a.hdrSize != b.hdrSize || a.hdr != b.hdr || len(a.sigs) != len(b.sigs)+1 || a.sigs[len(b.sigs)] != entry {
+			return fmt.Sprintf("list %d did not change by the entry at its end alone", changed)
+		}
+		for k := range b.sigs {
+			if a.sigs[k] != b.sigs[k] {
+				return fmt.Sprintf("list %d: an older entry changed", changed)
+			}
+		}
+		return ""
+	}
+	return fmt.Sprintf("%d lists before, %d after", len(before), len(after))
+}
+
+// genMultiListHistory: databases that hold TWO OR MORE LISTS OF ONE TYPE AND SIGNATURE SIZE, and the list-valued
+// membership query Exists on them. Append alone keeps one list per type and size, but a decoded database (a dbx
+// holds many SHA-256 lists) and AppendList / AppendDatabase (which never merge) give several; in the entry-collection
+// view it does not matter in which list an entry lives. Four entries of one type (2 owners x 2 values of one size) are
+// split over two lists - decoded from the start stream (next to each other, or with a list of another type between
+// them), handed over by two AppendList calls, or a decoded list plus an AppendList - one of the four possibly left
+// out; the history then asks Exists for lists whose entries live in DIFFERENT database lists (in both orders), in the
+// first list only, in the second list only, for a list with an absent entry, for a list WITHOUT entries (of this type
+// and of a type no database list has: every one of its zero entries is present), encodes and decodes, asks again,
+// removes an entry and asks for a list that holds it, and goes on with a random history.
+func genMultiListHistory(c *Ctx, u *c09Universe, i int, maxLen int) Case {
+	h := genHistory(c, u, maxLen)
+	var t []byte
+	var vals [][]byte
+	switch i % 3 {
+	case 0:
+		t, vals = tSHA256, [][]byte{u.data[0], u.data[1]}
+	case 1:
+		t, vals = tX509, [][]byte{u.data[4], u.data[6]} // certificates of one length
+	default:
+		t, vals = tEXT, [][]byte{u.ext[0], u.ext[1]}
+	}
+	size := len(vals[0]) + 16
+	all := [][2][]byte{{u.owners[0], vals[0]}, {u.owners[1], vals[0]}, {u.owners[0], vals[1]}, {u.owners[1], vals[1]}}
+	c.Rng.Shuffle(len(all), func(a, b int) { all[a], all[b] = all[b], all[a] })
+	k := 1 + c.Rng.Intn(2)         // entries of the first list
+	m := k + 1 + c.Rng.Intn(4-k-1+1) // entries of both lists together (k+1 .. 4)
+	if m > 4 {
+		m = 4
+	}
+	l1, l2, absent := all[:k], all[k:m], all[m:]
+	es := func(xs ...[2][]byte) string {
+		if len(xs) == 0 {
+			return "-"
+		}
+		out := []string{}
+		for _, x := range xs {
+			out = append(out, hx(x[0])+":"+hx(x[1]))
+		}
+		return strings.Join(out, "+")
+	}
+	lop := func(l [][2][]byte) string { return fmt.Sprintf("L,%s,%d,%s", hx(t), size, es(l...)) }
+	otherT, otherV := tSHA256, u.data[1]
+	if bytes.Equal(t, tSHA256) {
+		otherT, otherV = tX509, u.data[7]
+	}
+	other := encodeList(otherT, nil, len(otherV)+16, [][2][]byte{{u.owners[1], otherV}})
+	start := "empty"
+	var pre []interface{}
+	usedL := false
+	switch i / 3 % 4 {
+	case 0:
+		start = hx(append(encodeList(t, nil, size, l1), encodeList(t, nil, size, l2)...))
+	case 1:
+		start = hx(append(append(encodeList(t, nil, size, l1), other...), encodeList(t, nil, size, l2)...))
+	case 2:
+		pre = append(pre, lop(l1), lop(l2))
+		usedL = true
+	default:
+		start = hx(encodeList(t, nil, size, l1))
+		pre = append(pre, lop(l2))
+		usedL = true
+	}
+	x := func(xs ...[2][]byte) string { return fmt.Sprintf("X,%s,%s", hx(t), es(xs...)) }
+	noListType := tSHA1
+	span, spanRev := x(l1[len(l1)-1], l2[0]), x(l2[len(l2)-1], l1[0])
+	everything := x(append(append([][2][]byte{}, l2...), l1...)...)
+	pre = append(pre, span, x(l2...), x(l1...), spanRev, everything, x(), fmt.Sprintf("X,%s,-", hx(noListType)))
+	if len(absent) > 0 {
+		pre = append(pre, x(l1[0], absent[0]), x(absent[0], l2[0]), x(absent...))
+	}
+	rm := l1[len(l1)-1]
+	switch i / 12 % 3 {
+	case 0:
+		pre = append(pre, "E", span, everything)
+	case 1:
+		pre = append(pre, fmt.Sprintf("R,%s,%s,%s", hx(t), hx(rm[0]), hx(rm[1])), span, x(l2...), spanRev)
+	default:
+		pre = append(pre, fmt.Sprintf("A,%s,%s,%s", hx(otherT), hx(u.owners[0]), hx(otherV)), span, "E", spanRev, x(l2[len(l2)-1]))
+	}
+	ops := pre
+	for _, o := range h["ops"].([]interface{}) {
+		if so := fmt.Sprint(o); usedL && (strings.HasPrefix(so, "HA,") || strings.HasPrefix(so, "HR,")) {
+			continue // the ordinals of the held-list operations count the lists the random part handed over itself
+		}
+		ops = append(ops, o)
+	}
+	return Case{"op": "history", "pem": h["pem"], "start": start, "ops": ops}
+}
+
+// genUnfitEmptyHistory: a list WITHOUT entries of the entry's type whose SignatureSize is NOT the entry's size, standing
+// in front of other lists - decoded from the start stream (the decoder accepts ListSize 28 with any SignatureSize of at
+// least 16 for X.509) or handed over by AppendList as a hand-built list (X.509, SHA-1). It holds nothing and fits
+// nothing: an append of that type has to go past it - into the later list of its size (behind that list's entries), into
+// a later list without entries that does fit, or into a new list at the end - and must leave it as it was; an append
+// whose size IS the empty list's size lands in it. Entries of another type stand between the empty list and the fitting
+// one in a part of the histories, so that a misplaced entry also shows in the ORDER of the entry collection after the
+// next encode-decode; queries, a removal and a random history follow.
+func genUnfitEmptyHistory(c *Ctx, u *c09Universe, i int, maxLen int) Case {
+	h := genHistory(c, u, maxLen)
+	o0, o1 := u.owners[0], u.owners[1]
+	a, b, cc := u.data[4], u.data[6], u.data[7] // |a| = |b| != |cc|
+	ent := func(t, o, d []byte) string { return fmt.Sprintf("%s,%s,%s", hx(t), hx(o), hx(d)) }
+	cat := func(xs ...[]byte) string {
+		var o []byte
+		for _, x := range xs {
+			o = append(o, x...)
+		}
+		return hx(o)
+	}
+	unfit := encodeList(tX509, nil, 16+len(cc), nil) // sized for certificate C
+	tiny := encodeList(tX509, nil, 16+1, nil)
+	fitEmpty := encodeList(tX509, nil, 16+len(a), nil)
+	full := encodeList(tX509, nil, 16+len(a), [][2][]byte{{o0, a}})
+	sha := encodeList(tSHA256, nil, 48, [][2][]byte{{o1, u.data[0]}})
+	start := "empty"
+	var pre []interface{}
+	usedL := false
+	app := []string{"A,", "AS,"}[i/8%2]
+	switch i % 8 {
+	case 0:
+		start = cat(unfit, full)
+		pre = append(pre, app+ent(tX509, o1, b))
+	case 1:
+		start = cat(unfit, sha, full)
+		pre = append(pre, app+ent(tX509, o1, b))
+	case 2:
+		start = cat(unfit)
+		pre = append(pre, app+ent(tX509, o0, a), app+ent(tSHA256, o0, u.data[1]), app+ent(tX509, o1, b))
+	case 3:
+		start = cat(tiny, unfit, sha, fitEmpty, full)
+		pre = append(pre, app+ent(tX509, o1, b))
+	case 4:
+		start = cat(sha, unfit)
+		pre = append(pre, app+ent(tX509, o0, a))
+	case 5:
+		// the same through AppendList: the caller hands over a hand-built list without entries, then entries arrive
+		pre = append(pre, fmt.Sprintf("LH,%s,%d,-,-", hx(tX509), 16+len(cc)), app+ent(tSHA256, o0, u.data[0]), app+ent(tX509, o0, a), app+ent(tX509, o1, b))
+		usedL = true
+	case 6:
+		pre = append(pre, fmt.Sprintf("LH,%s,%d,-,-", hx(tSHA1), 16+32), app+ent(tX509, o0, a), app+ent(tSHA1, o0, u.data[9]), app+ent(tSHA1, o1, u.data[9]))
+		usedL = true
+	default:
+		start = cat(unfit, full)
+		pre = append(pre, fmt.Sprintf("LH,%s,%d,-,-", hx(tX509), 16+1), app+ent(tX509, o1, b))
+		usedL = true
+	}
+	pre = append(pre, "Q,"+ent(tX509, o1, b), "E")
+	switch i / 16 % 3 {
+	case 0:
+		pre = append(pre, app+ent(tX509, o0, cc), "E") // an entry of the empty list's own size
+	case 1:
+		pre = append(pre, "R,"+ent(tX509, o0, a), app+ent(tX509, o0, b), "E")
+	default:
+		pre = append(pre, app+ent(tX509, o0, u.data[5]), "Q,"+ent(tX509, o0, a)) // the PEM form of certificate A
+	}
+	ops := pre
+	for _, o := range h["ops"].([]interface{}) {
+		if so := fmt.Sprint(o); usedL && (strings.HasPrefix(so, "HA,") || strings.HasPrefix(so, "HR,")) {
+			continue
+		}
+		ops = append(ops, o)
+	}
+	return Case{"op": "history", "pem": h["pem"], "start": start, "ops": ops}
+}
+
 func c09Gen(c *Ctx) {
 	u := newC09Universe(c)
 	for i := 0; i < c.N(3000, 100000); i++ {
@@ -1105,11 +1373,20 @@ func c09Gen(c *Ctx) {
 	for i := 0; i < c.N(288, 10000) && c.NFailures() < 8; i++ {
 		historyShrunk(c, genEmptyListHistory(sub, u, i, c.P(6, 20)), "C09")
 	}
+	// generators of their own again
+	sub2 := &Ctx{Rng: mrand.New(mrand.NewSource(c.Seed*32452867 + 29 + int64(c.Shard)*1000003)), Thorough: c.Thorough}
+	for i := 0; i < c.N(144, 6000) && c.NFailures() < 8; i++ {
+		historyShrunk(c, genMultiListHistory(sub2, u, i, c.P(5, 16)), "C09")
+	}
+	sub3 := &Ctx{Rng: mrand.New(mrand.NewSource(c.Seed*49979711 + 31 + int64(c.Shard)*1000003)), Thorough: c.Thorough}
+	for i := 0; i < c.N(144, 6000) && c.NFailures() < 8; i++ {
+		historyShrunk(c, genUnfitEmptyHistory(sub3, u, i, c.P(5, 16)), "C09")
+	}
 }
 
 func init() {
 	register("C09", &PropDef{
-		Rule:   "random histories of append / remove / BytesExists / Exists (every third append, removal and membership query enters through the library's other name for the operation: SignatureDatabase.AppendSignature, RemoveSignature, SigDataExists - same oracle, and for PEM appends the same PEM-vs-DER comparison through that entry point; model driver ops AS / RS / QS, translated-code driver: the translated AppendSignature / RemoveSignature / SigDataExists) / AppendList / AppendList and AppendDatabase of a hand-built list with a 1..12-byte SignatureHeader (HeaderSize > 0; types SHA1 / SHA384, which only a caller can build, and two GUIDs that are no signature type at all - a list of a type unknown to the library can only enter this way, is part of the entry collection like any other, and must answer the queries and give up its entries to remove; later appends and removes are steered into that list) / HELD-LIST operations (the caller keeps the pointer of every list it handed to AppendList / AppendDatabase and goes on editing it through the list-level AppendBytes / RemoveBytes - lists of two to four equal-sized entries are handed over for this - interleaved with the database-level operations; in the library the database's list is that very list, which the oracle, the model driver and the translated-code driver follow with a book of positions; an edit may change the database by that one entry only, a list the database dropped or that a decode replaced must not change it at all; a RemoveBytes that would leave a signature-less list inside the database is skipped: known finding F20) / encode-decode over types {X509, SHA256, externally-managed (EFI_CERT_EXTERNAL_MANAGEMENT_GUID, whose signature size the specification fixes at 16+1), SHA1 (valid, undecodable), unknown GUID} x 2 owners x {two hashes, 31- and 33-byte strings, cert A DER/PEM/PEM behind a text preamble, cert B (|B|=|A|), cert C DER/PEM (|C|!=|A|), 20 bytes, cert D whose DER length equals the length of the PEM text of cert A; for the externally-managed type two one-byte values (the only well-formed size) and values of 0, 2 and 32 bytes}, started from empty or from a decoded well-formed stream (X.509, SHA-256 and externally-managed lists); WRONGLY-SIZED appends (F37): SHA-256 data that is not 32 bytes and externally-managed data that is not one byte must report an error and change nothing, through Append and AppendSignature alike; externally-managed lists are also handed over by AppendList (well-formed, and built through the list-level AppendBytes from values of all five sizes) and edited by their holder; operands are biased towards recently used triples. LISTS WITHOUT ENTRIES THAT CARRY A SIGNATURE SIZE (288 further histories, generator of their own): the database holds a signature-less list of the entry's type and size (ListSize 28, SignatureSize 48 / certificate size / 17) - decoded from the start stream in front of (once, twice, behind a signature-less list of another size), behind or instead of the list that holds the entries, or handed over by AppendList as a hand-built list followed by the list with the entries; the history then removes (Remove and RemoveSignature) an entry that is absent and one that is present, queries both, appends into the empty list, encodes and decodes, and continues with a random history - in the entry-collection view such a list holds nothing, so every operation has to look past it. Every append / removal that must fail is also required to leave the ENCODING as it was (an operation that reports an error changes nothing, not even a list without entries). Every append of an X.509 certificate in PEM form is repeated with the DER form on a deep copy of the database: error class and entry collection have to be the same (PEM is stored as DER, whatever lists are present). Non-trivial: at least two operations of at least two kinds; distinct = distinct histories.",
+		Rule:   "random histories of append / remove / BytesExists / Exists (every third append, removal and membership query enters through the library's other name for the operation: SignatureDatabase.AppendSignature, RemoveSignature, SigDataExists - same oracle, and for PEM appends the same PEM-vs-DER comparison through that entry point; model driver ops AS / RS / QS, translated-code driver: the translated AppendSignature / RemoveSignature / SigDataExists) / AppendList / AppendList and AppendDatabase of a hand-built list with a 1..12-byte SignatureHeader (HeaderSize > 0; types SHA1 / SHA384, which only a caller can build, and two GUIDs that are no signature type at all - a list of a type unknown to the library can only enter this way, is part of the entry collection like any other, and must answer the queries and give up its entries to remove; later appends and removes are steered into that list) / HELD-LIST operations (the caller keeps the pointer of every list it handed to AppendList / AppendDatabase and goes on editing it through the list-level AppendBytes / RemoveBytes - lists of two to four equal-sized entries are handed over for this - interleaved with the database-level operations; in the library the database's list is that very list, which the oracle, the model driver and the translated-code driver follow with a book of positions; an edit may change the database by that one entry only, a list the database dropped or that a decode replaced must not change it at all; a RemoveBytes that would leave a signature-less list inside the database is skipped: known finding F20) / encode-decode over types {X509, SHA256, externally-managed (EFI_CERT_EXTERNAL_MANAGEMENT_GUID, whose signature size the specification fixes at 16+1), SHA1 (valid, undecodable), unknown GUID} x 2 owners x {two hashes, 31- and 33-byte strings, cert A DER/PEM/PEM behind a text preamble, cert B (|B|=|A|), cert C DER/PEM (|C|!=|A|), 20 bytes, cert D whose DER length equals the length of the PEM text of cert A; for the externally-managed type two one-byte values (the only well-formed size) and values of 0, 2 and 32 bytes}, started from empty or from a decoded well-formed stream (X.509, SHA-256 and externally-managed lists); WRONGLY-SIZED appends (F37): SHA-256 data that is not 32 bytes and externally-managed data that is not one byte must report an error and change nothing, through Append and AppendSignature alike; externally-managed lists are also handed over by AppendList (well-formed, and built through the list-level AppendBytes from values of all five sizes) and edited by their holder; operands are biased towards recently used triples. LISTS WITHOUT ENTRIES THAT CARRY A SIGNATURE SIZE (288 further histories, generator of their own): the database holds a signature-less list of the entry's type and size (ListSize 28, SignatureSize 48 / certificate size / 17) - decoded from the start stream in front of (once, twice, behind a signature-less list of another size), behind or instead of the list that holds the entries, or handed over by AppendList as a hand-built list followed by the list with the entries; the history then removes (Remove and RemoveSignature) an entry that is absent and one that is present, queries both, appends into the empty list, encodes and decodes, and continues with a random history - in the entry-collection view such a list holds nothing, so every operation has to look past it. SEVERAL LISTS OF ONE TYPE AND SIZE, AND THE LIST-VALUED QUERY (144 further histories, generator of their own): four entries of one type (SHA-256 / X.509 certificates of one length / externally-managed; 2 owners x 2 values) are split over TWO database lists of that type and size - decoded from the start stream next to each other or with a list of another type between them, handed over by two AppendList calls, or one decoded and one handed over - possibly leaving one of the four out; SignatureDatabase.Exists is then asked for lists whose entries live in DIFFERENT database lists (both orders), in the first list only, in the second only, for all entries, for lists with an absent entry, and for a list WITHOUT entries (of that type, and of a type no database list has: each of its zero entries is present), again after an encode-decode, after a removal of one of the entries and after an append of another type, followed by a random history; oracle as for every Exists: true exactly when every entry of the queried list is in the entry collection, in whichever list. Every Exists query of every history is repeated with a certtype argument that is not the queried list's type (rotating): the answer must agree with the entry collection under the list's type or under the certtype (the statement does not say which). LISTS WITHOUT ENTRIES THAT DO NOT FIT (144 further histories): a signature-less list of the entry's TYPE but of ANOTHER SignatureSize (X.509 sized for a certificate of another length, or 16+1; decoded from the start stream in front of the list that holds the entries, in front of a SHA-256 list and that list, alone, behind a SHA-256 list, or together with a fitting signature-less list; or hand-built and handed to AppendList - X.509 and SHA-1) stands in front of other lists and entries of that type are appended (Append / AppendSignature; DER and PEM), among them one of exactly the empty list's size, then queried, encoded and decoded, removed, and a random history follows. LIST-LEVEL ORACLE ON EVERY SUCCESSFUL APPEND of every history (from the size equations of the statement, on the Spec-decoded lists before and after): the entry is added at the end of exactly ONE list whose type and SignatureSize are the entry's, or as a new header-less list holding just it behind all others; every other list - also a list without entries, which shows in no entry collection - keeps type, sizes, header and entries. Every append / removal that must fail is also required to leave the ENCODING as it was (an operation that reports an error changes nothing, not even a list without entries). Every append of an X.509 certificate in PEM form is repeated with the DER form on a deep copy of the database: error class and entry collection have to be the same (PEM is stored as DER, whatever lists are present). Non-trivial: at least two operations of at least two kinds; distinct = distinct histories.",
 		Assume: []string{"lists handed to AppendList / AppendDatabase are fresh, well-formed (ListSize = 28 + HeaderSize + n*SignatureSize, HeaderSize = len(SignatureHeader)) and duplicate-free (slice aliasing between two databases is outside the model; the caller's pointer to a handed-over list is inside it since the held-list operations); an empty one reproduces known finding F20", "a decoded start database has no duplicate entry inside a list"},
 		Eval:   c09Eval,
 		Gen:    c09Gen,
